@@ -205,7 +205,15 @@ func (m *reModel) act(a reAction) error {
 	return nil
 }
 
-func reExpected(c reCase, ml, rvLate bool) (string, error) {
+// rv modes: when ToString(replaceValue) runs.
+const (
+	rvEarly       = iota // before the search
+	rvLate               // after the search
+	rvSkipNoMatch        // after the search, and not at all when nothing matched (finding F-C10-019)
+)
+
+func reExpected(c reCase, ml bool, rvMode int) (string, error) {
+	rvLate := rvMode != rvEarly
 	pat := regex.ClassifyString(c.pattern)
 	m := &reModel{re: regex.NewRegExp(pat, c.flags), ml: ml}
 	re := m.re
@@ -259,7 +267,7 @@ func reExpected(c reCase, ml, rvLate bool) (string, error) {
 			if err != nil {
 				return err
 			}
-			if c.sc.op == "replaceT" && rvLate {
+			if c.sc.op == "replaceT" && rvLate && !(rvMode == rvSkipNoMatch && len(ms) == 0) {
 				if err := cb("rv"); err != nil {
 					return err
 				}
@@ -311,10 +319,13 @@ func reCases() []reCase {
 	return out
 }
 
-func reAccepts(c reCase, ml bool, obs string) (bool, []string) {
+func reAccepts(c reCase, ml bool, obs string, modes ...int) (bool, []string) {
 	var want []string
-	for _, late := range []bool{false, true} {
-		w, err := reExpected(c, ml, late)
+	if len(modes) == 0 {
+		modes = []int{rvEarly, rvLate}
+	}
+	for _, mode := range modes {
+		w, err := reExpected(c, ml, mode)
 		if err != nil {
 			continue
 		}
@@ -358,6 +369,22 @@ func init() {
 		}
 		spec, _ := reAccepts(c, false, m.Observed)
 		alt, _ := reAccepts(c, true, m.Observed)
+		return !spec && alt
+	})
+}
+
+func init() {
+	// replace with a non-function replaceValue never converts it when nothing matched.
+	register("c10-replace-value-not-converted", func(m *engine.Mismatch) bool {
+		if m.Aux == nil || m.Aux["reent"] != "1" {
+			return false
+		}
+		c, ok := reCaseByKey(m.Key)
+		if !ok || c.sc.op != "replaceT" {
+			return false
+		}
+		spec, _ := reAccepts(c, false, m.Observed)
+		alt, _ := reAccepts(c, false, m.Observed, rvSkipNoMatch)
 		return !spec && alt
 	})
 }
